@@ -41,6 +41,8 @@ func runExtras(r *Runner, p *Property, tier string) ([]*LedgerEntry, []string) {
 			_ = e1
 			out = append(out, boundedStandInKind(r, "C16", "ReadStringBytes", "append-semantics-ReadStringBytes", []byte("\"\\unD8a0 "), "ensures")...)
 			out = append(out, boundedStandInKind(r, "C16", "UnescapeStringContent", "append-semantics-UnescapeStringContent", []byte("\"\\unD8a0 "), "ensures")...)
+		case "bounded-safety-uncovered":
+			out = append(out, boundedStandInKind(r, "C10", "uncovered", "no-panic-of-functions-not-under-contract", []byte(`[]{}",:1\u `), "bounds")...)
 		case "bounded-zero-alloc":
 			out = append(out, boundedStandIn(r, "C19", "readers", "zero-alloc", nil)...)
 		case "fp-noalloc-scan":
